@@ -94,7 +94,9 @@ def view_inv(buf, rem, pos, rc, L, opos):
 
 
 def inv_obj(v, s, rc, L, opos):
-    return view_inv(v.get(s, '_buffer'), v.get(s, '_bytes_remaining'), v.get(s, '_pos'), rc, L, opos)
+    # frame: the receive callable is never replaced and a reading operation never closes the stream
+    return And(view_inv(v.get(s, '_buffer'), v.get(s, '_bytes_remaining'), v.get(s, '_pos'), rc, L, opos),
+               v.get(s, '_receive') is rc, Not(v.get(s, '_closed')))
 
 
 def mk(v, closed=False):
